@@ -357,7 +357,7 @@ Qed.
 Lemma matching_host_noglob_in t host tls h :
   wf_keys t ->
   (In h (matching_host_noglob t host tls) <->
-   In h (keys t) /\ beq (normalize_host h tls) (strip_port host tls) = true).
+   In h (keys t) /\ beq (normalize_host h tls) (normalize_host host tls) = true).
 Proof.
   intros Hwf. unfold matching_host_noglob. fold (keys t). rewrite sort_hosts_rhp_in.
   - rewrite in_map_iff. split.
@@ -388,9 +388,7 @@ Proof.
   - unfold host_list in Hh. destruct globoff.
     + apply (matching_host_noglob_in t host tls h Hwf) in Hh as [Hkey Hb].
       destruct (wf_keys_in t h Hwf Hkey) as [Hlow _]. rewrite Hlow in Hk. subst k.
-      apply orb_true_iff. right. unfold spec_host_match.
-      apply beq_eq in Hb. apply beq_eq.
-      unfold normalize_host at 2. rewrite <- Hb. symmetry. apply normalize_host_lower.
+      apply orb_true_iff. right. unfold spec_host_match. exact Hb.
     + apply (matching_hosts_in t host tls h Hwf) in Hh as [Hkey Hb].
       destruct (wf_keys_in t h Hwf Hkey) as [Hlow _]. rewrite Hlow in Hk. subst k.
       apply orb_true_iff. right. unfold spec_host_match.
@@ -403,11 +401,10 @@ Qed.
 Theorem lookup_complete t host tls uri m globoff c :
   wf_keys t -> NoDup (keys t) ->
   F_C03_gobwas_overlap globoff tls m t host uri = false ->
-  F_C03_upper_host_noglob globoff host = false ->
   In c (all_routes t) -> is_candidate globoff tls m host uri c = true ->
   lookup t host tls uri m globoff <> None.
 Proof.
-  intros Hwf Hnd Hdev Hup Hall Hc. destruct c as [[k p] id].
+  intros Hwf Hnd Hdev Hall Hc. destruct c as [[k p] id].
   pose proof Hall as Hall'. apply all_routes_in in Hall' as [rs [Hin Hp]].
   rewrite <- (assoc_nodup t k rs Hnd Hin) in Hp.
   assert (Hkey : In k (keys t)).
@@ -420,10 +417,7 @@ Proof.
   apply in_or_app. apply orb_true_iff in Hh as [Hnil | Hh].
   - right. destruct k; [now left | discriminate].
   - left. unfold host_list. unfold spec_host_match in Hh. destruct globoff.
-    + apply (matching_host_noglob_in t host tls k Hwf). split; [exact Hkey|].
-      unfold F_C03_upper_host_noglob in Hup. cbn [andb] in Hup.
-      unfold normalize_host at 2 in Hh.
-      now rewrite (lower_no_upper _ (has_upper_strip host tls Hup)) in Hh.
+    + apply (matching_host_noglob_in t host tls k Hwf). split; [exact Hkey | exact Hh].
     + apply (matching_hosts_in t host tls k Hwf). split; [exact Hkey|].
       now rewrite (no_dev_host _ _ _ _ _ _ _ Hdev eq_refl Hkey).
 Qed.
@@ -481,13 +475,16 @@ Definition ex_refuted (defs : list def) (host : str) (tls : bool) (uri : str) (m
   let t := new_table defs in
   lookup t host tls uri m globoff = sel /\ spec_b t globoff tls m host uri sel = false.
 
-(* F-C03-1: upper-case Host with glob matching disabled finds nothing although
-   route foo.com/ matches the request *)
+(* F-C03-1 (REPAIRED in /repo by 3f5e3c8; this is about the code before the repair,
+   [lookup_noglob_unrepaired]): an upper-case Host with glob matching disabled found
+   nothing although route foo.com/ matches the request.  The current [lookup] finds it. *)
 Theorem noglob_upper_host_refuted :
-  ex_refuted [(bs "foo.com", bs "/", 0)] (bs "FOO.com") false (bs "/") MPrefix true None
+  let t := new_table [(bs "foo.com", bs "/", 0)] in
+  lookup_noglob_unrepaired t (bs "FOO.com") false (bs "/") MPrefix = None
+  /\ spec_b t true false MPrefix (bs "FOO.com") (bs "/") None = false
   /\ F_C03_upper_host_noglob true (bs "FOO.com") = true
-  /\ candidates (new_table [(bs "foo.com", bs "/", 0)]) true false MPrefix (bs "FOO.com") (bs "/")
-     = [(bs "foo.com", bs "/", 0)].
+  /\ candidates t true false MPrefix (bs "FOO.com") (bs "/") = [(bs "foo.com", bs "/", 0)]
+  /\ lookup t (bs "FOO.com") false (bs "/") MPrefix true = Some (bs "foo.com", bs "/", 0).
 Proof. vm_compute. repeat split; reflexivity. Qed.
 
 (* F-C03-2: iprefix: /fo is selected although the longer /Foo matches too *)
